@@ -26,12 +26,18 @@ struct ThreadOut {
     strip: Result<String, String>,
     canary: Vec<usize>,
     served: u32,
+    clock_reads: u32,
 }
 
 /// One simulated thread: fresh OS thread, keys installed before anything else runs on it.
 fn simulated_thread(src: &str, keys: [u8; 16]) -> ThreadOut {
+    simulated_thread_clock(src, keys, 0)
+}
+
+/// As `simulated_thread`, on a machine whose clock advances `step_ns` with every read (0: the real clock).
+fn simulated_thread_clock(src: &str, keys: [u8; 16], step_ns: u64) -> ThreadOut {
     let src = src.to_string();
-    with_hash_keys(keys, move || {
+    with_hash_keys_and_clock(keys, step_ns, move || {
         // canary: the first hash container of this thread; its iteration order is a function of
         // the keys alone and shows which keys this thread really got. (Taken before generate():
         // std derives later RandomStates from a per-thread counter.)
@@ -41,7 +47,7 @@ fn simulated_thread(src: &str, keys: [u8; 16]) -> ThreadOut {
         let ts2 = ts.clone();
         let gen = catch(move || logos_codegen::generate(ts).to_string());
         let strip = catch(move || logos_codegen::strip_attributes(ts2).to_string());
-        ThreadOut { gen, strip, canary, served: seam_served_on_this_thread() }
+        ThreadOut { gen, strip, canary, served: seam_served_on_this_thread(), clock_reads: seam_clock_calls_on_this_thread() }
     })
 }
 
@@ -84,6 +90,22 @@ fn render(r: &Result<String, String>) -> String {
 /// Compare the outputs of a definition under the given key draws. Returns per-draw outputs too.
 fn check_definition(src: &str, draws: &[[u8; 16]]) -> (Vec<ThreadOut>, Option<Violation>) {
     let outs: Vec<ThreadOut> = draws.iter().map(|k| simulated_thread(src, *k)).collect();
+    // D7, clock: the first key draw again on machines whose clock jumps 1 ms / 1 min with every read
+    for step in CLOCK_STEPS {
+        let o = simulated_thread_clock(src, draws[0], *step);
+        for (oracle, a, b) in [("D7-clock", render(&outs[0].gen), render(&o.gen)), ("D7-clock", render(&outs[0].strip), render(&o.strip))] {
+            if a != b {
+                let at = first_diff(&a, &b);
+                let v = Violation {
+                    oracle,
+                    what: format!("the output differs between the real clock and a clock that advances {} ns per read ({} clock reads were made; first difference at byte {} of {} / {}): the output depends on elapsed time", step, o.clock_reads, at, a.len(), b.len()),
+                    keys_a: draws[0], keys_b: draws[0], first_diff: at, context_a: ctx(&a, at), context_b: ctx(&b, at),
+                };
+                return (outs, Some(v));
+            }
+        }
+        CLOCK_READS.fetch_add(o.clock_reads as u64, std::sync::atomic::Ordering::Relaxed);
+    }
     for i in 1..outs.len() {
         for (oracle, a, b) in [("D1-generate", render(&outs[0].gen), render(&outs[i].gen)), ("D1-strip", render(&outs[0].strip), render(&outs[i].strip))] {
             if a != b {
@@ -102,6 +124,10 @@ fn check_definition(src: &str, draws: &[[u8; 16]]) -> (Vec<ThreadOut>, Option<Vi
     }
     (outs, None)
 }
+
+/// simulated clock steps (ns per read) of the D7 draws
+const CLOCK_STEPS: &[u64] = &[1_000_000, 60_000_000_000];
+static CLOCK_READS: std::sync::atomic::AtomicU64 = std::sync::atomic::AtomicU64::new(0);
 
 fn reach(gen: &str) -> (usize, usize, usize, usize) {
     // (distinct states, fork tables, lookup tables, errors) estimated from the rendered text
@@ -529,6 +555,8 @@ fn main() {
         "diagnostic": defs.iter().filter(|d| d.origin == "diagnostic").count(),
     });
     result["draws_per_definition"] = json!(k);
+    result["clock_draws_per_definition"] = json!(CLOCK_STEPS.len());
+    result["clock_reads_served_by_the_seam"] = json!(CLOCK_READS.load(std::sync::atomic::Ordering::Relaxed));
     result["outputs_digest"] = json!(format!("{:016x}", fnv1a(digest.as_bytes())));
     result["engine"] = json!("hash-sim");
     result["seed"] = json!(seed);
